@@ -28,6 +28,7 @@ RULE += (
          'F, o, i, c). ')
 RULE += ('Round 8: named formats comma-numeric / url-unquote(-plus) / url-quote-plus modelled; equal values of different type one after the other. ')
 RULE += ('Round 9: characters whose case mappings do not round-trip. ')
+RULE += ('Round 10: url quoting round trip in templates of another encoding. ')
 ASSUMPTIONS = [
     'the statement does not say which fixed order the modifiers have: it is '
     'read off pairwise renderings and only its existence, acyclicity and '
